@@ -116,7 +116,9 @@ theorem longest_match (s lex : List Char) (o : Operator) (h : findOp s = some (l
   rw [hsplit, List.mem_append, List.mem_cons] at hq
   rcases hq with hq | hq | hq
   · have := hbefore q hq
-    exact absurd (List.isPrefixOf_iff_prefix.mpr hqs) (by simpa using this)
+    have hb := List.isPrefixOf_iff_prefix.mpr hqs
+    simp only [Bool.not_eq_true'] at this
+    rw [this] at hb; exact absurd hb (by decide)
   · subst hq; exact Nat.le_refl _
   · have hr := hcons.1 q hq
     by_cases hlen : q.1.length ≤ lex.length
@@ -283,7 +285,7 @@ theorem var_constant_agrees (x : Name) (c : List Char) (v : Int) (env : Env)
     (hterm : ∀ ch ∈ c, isTermChar ch = true) (hc : parseConstant c = some v) (hx : env.get x = some c) :
     expandVariable x env = .ok v := by
   unfold expandVariable
-  rw [hx, parseInteger_of_constant c v hterm hc]; rfl
+  simp only [hx, parseInteger_of_constant c v hterm hc, Res.ofOption]
 
 /-- the two witnesses that failed before the fix: `x=010` is 8, `x=0x10` is 16 -/
 example : expandVariable ['x'] [(['x'], "010".toList)] = .ok 8 ∧
